@@ -12,6 +12,8 @@ CHECKS = {
          "Lean 4 proof by kernel evaluation (decide +kernel) on tables translated from source + stage-loop correspondence + h-ladder search", "§3 C07"),
  "C06": ("Lean theorems that each algebraic solver's success flag equals (residual at the returned point < tol) for every residual function incl. NaN (loop invariant for Newton / continuous Newton; final fresh evaluation for lm / sicnm); the Newton controller is tied to nr_method by exact scripted-oracle runs (residuals on/around the tolerance, NaN, inf), all four solvers by an independent flag oracle on constructed families; basin convergence is sampled only",
          "Lean 4 proof (loop invariant by induction on iterations) + scripted-oracle correspondence + flag oracle on constructed families", "§3 C06"),
+ "C12": ("Lean theorems over exact rationals for the grid loop of backward_euler / implicit_trapezoid (grid values t0+k*h, first exit index, step count <= floor((tend-t0)/h)+1 so the buffer never overflows, exact arrival at tend for integral ratios, overshoot < one step otherwise); the Float behaviour of all three integrators (incl. fdae_solver's shortened last step) is tied by bit-exact grid comparison on (t0,tend,h) triples; step equations are evaluated on returned rows by an oracle. fdae grid and step equations: correspondence/oracle only (partial)",
+         "Lean 4 proof (induction over loop iterations, Mathlib linarith over Q) + bit-exact Float grid correspondence + step-equation oracle", "§3 C12"),
 }
 REASONS = {}
 props = [json.loads(l)["id"] for l in open(os.path.join(V, "properties.jsonl"))]
